@@ -167,6 +167,16 @@ def check(rep: Report, ctx: Ctx) -> None:
     from .c11 import bounds_writers
     bounds_writers(rep, ctx, "R15.8")
 
+    # ---- R15.9 ---------------------------------------------------------------
+    # a run that opens an existing store (--no-ingest, or after a run that
+    # stopped half way) must bring it to the same cleaned, renamed state as
+    # the run that filled it: the cleaning steps run on both arms (seed C15-y)
+    rep.rule("R15.9", "a run on an existing store applies the same cleaning "
+             "and renaming steps before it reads (= C11 R11.1)", 6)
+    from . import c11 as _c11
+    from .util import borrow
+    borrow(rep, ctx, _c11, "C11", "R11.1", "R15.9")
+
     # ---- R15.5 ---------------------------------------------------------------
     rep.rule("R15.5", "opening the store never resets it", 2)
     fetch = ctx.func("fetch_data_holder")
